@@ -93,15 +93,25 @@ def classify(inst, sols):
     out = []
     red = W.reduce_system(inst.cons, p)
     for s in sols:
-        if s.dependent and any(W.depends_on_dependent(w, s, p) for w in inst.wires):
-            out.append({"klass": "undecided-dependent", "root": ("?", "?", "?"), "var": None, "alt": {}, "wire_index": -1})
-            continue
         hit = None
+        undecided = False
         for wi, w in enumerate(inst.wires):
-            dep = W.depends_on_free(w, s.free, p)
+            if s.dependent and W.depends_on_dependent(w, s, p):
+                # substitute the eliminated variables by their (affine) definitions: the wire may
+                # still be constant, or it may vary with a free variable
+                aw = W.affine_wire(w, s, red, p)
+                if aw is None:
+                    undecided = True
+                    continue
+                dep = sorted(v for v in aw[1] if v in s.free)
+            else:
+                dep = W.depends_on_free(w, s.free, p)
             if dep:
                 hit = (wi, min(dep))
                 break
+        if undecided and not hit:
+            out.append({"klass": "undecided-dependent", "root": ("?", "?", "?"), "var": None, "alt": {}, "wire_index": -1})
+            continue
         if hit:
             wi, v = hit
             fv = {f: ((inst.assignment[f] + 1) if f == v else inst.assignment[f]) for f in s.free}
